@@ -286,6 +286,7 @@ def gen_plan(rng, family):
     elif family == "spawnfail":                 # C03 C01: a worker cannot be started once (EAGAIN) in the middle of submit(); the pool is used afterwards
         plan["workers"] = rng.choice([1, 1, 2])
         plan["timeout"] = 0.05
+        plan["reusable"] = rng.random() < 0.4        # the reusable executor's own submit() sits on top of the same path
         seq = [["submit", "value"], ["await_all"], ["pause"], ["failspawn"], ["submit", rng.choice(["value", "long"])]]
         for _ in range(rng.randint(1, 3)):
             seq.append(["submit", rng.choice(["value", "long", "value"])])
@@ -803,7 +804,14 @@ def analyze(plan, r):
             sig += f" queue-slots[{','.join(map(str, slots))}]"
         add(hang_props, "hang", sig, f"pending futures {pending}; users_done={r.users_done}")
     if r.status == "steps":
-        add([], "inconclusive", "steps-exhausted")
+        if not kills and "user:sleep" in blocked and not spawn_failed:
+            # nothing was killed, the step budget is exhausted and a user thread is still inside a polling loop (sleep, look, sleep ...):
+            # an API call that polls for ever.  (With kills the known lock-holder findings produce the same picture: left inconclusive.)
+            sig = (f"livelock status[steps] blocked[{','.join(blocked)}] dead-holders[{','.join(sorted(set(dead_holders)))}] "
+                   f"crashes[{','.join(sorted(set(crashes)))}] ctx[{ctx}]")
+            add(hang_props, "livelock", sig, f"pending futures {pending}; users_done={r.users_done}")
+        else:
+            add([], "inconclusive", "steps-exhausted")
     # the rest only makes sense when the run ended
     ended = r.status == "quiescent" and r.users_done and not pending
     broken_futs = [t for t, c in r.futures.items() if isinstance(c, tuple) and c[0] in BROKEN]
